@@ -109,8 +109,16 @@ class DirHandler(BaseHandler):
             return False
 
         if time.time() - statval[stat.ST_MTIME] < self.cachetime:
-            with self.vfs.open(self.cachename, "rb") as fp:
-                self.fileentries = pickle.load(fp)
+            try:
+                with self.vfs.open(self.cachename, "rb") as fp:
+                    self.fileentries = pickle.load(fp)
+            except Exception:
+                # The cache file is written in place, so it can be observed
+                # truncated or half-written (a writer that was killed, a full
+                # disk, or another request that is still writing it).  An
+                # unreadable cache is a cache miss, not an error: regenerate
+                # the listing and let savecache() rewrite the file.
+                return False
             self.fromcache = True
             return True
         return False
